@@ -145,11 +145,15 @@ func c02First(c *cx, id string, nf *eng.Fn, firstParam string) {
 				return true
 			}
 			if v := structLitField(cl, field); v != nil {
-				if cv := f.ConstVal(v); cv != nil && cv.ExactString() == "true" {
-					pt, _ := g.Where(cl)
-					if ok, _ := g.Dominated(pt, "!commaok(p4.(xmpp.negotiatorState))"); ok {
-						okDefault = true
-					}
+				pt, _ := g.Where(cl)
+				first, _ := g.Dominated(pt, "!commaok(p4.(xmpp.negotiatorState))")
+				if cv := f.ConstVal(v); cv != nil && cv.ExactString() == "true" && first {
+					okDefault = true
+				}
+				// a state value built anywhere else re-arms the indicator unless
+				// it says false
+				if cv := f.ConstVal(v); !first && (cv == nil || cv.ExactString() != "false") {
+					c.r.Check(id, f, "state literal with "+field+" set", "O: a negotiatorState value with the first-list indicator set is only made up for the first call (no state passed in)", cl.Pos(), false, "the indicator is re-armed on a later step: an unadvertised STARTTLS is attempted on a features list that is not the first")
 				}
 			}
 			return true
